@@ -66,12 +66,38 @@ class Canon(ast.NodeTransformer):
         # leading temporaries  t = EXPR  that live only inside this loop are
         # substituted into what follows
         temps = []
+        guards = []
         for pre in loop.body[:-1]:
-            if not (isinstance(pre, ast.Assign) and len(pre.targets) == 1
-                    and isinstance(pre.targets[0], ast.Name)
-                    and pre.targets[0].id != name):
+            if isinstance(pre, ast.Assign) and len(pre.targets) == 1 \
+                    and isinstance(pre.targets[0], ast.Name) \
+                    and pre.targets[0].id != name and not guards:
+                temps.append((pre.targets[0].id, pre.value))
+            elif isinstance(pre, ast.If) and not pre.orelse and \
+                    len(pre.body) == 1 and isinstance(
+                        pre.body[0], ast.Continue):
+                # guard clause:  if C: continue   ==  keep only if not C
+                guards.append(ast.UnaryOp(op=ast.Not(), operand=pre.test))
+            else:
                 return None
-            temps.append((pre.targets[0].id, pre.value))
+        if guards:
+            last = loop.body[-1]
+            if isinstance(last, ast.If) and not last.orelse and \
+                    len(last.body) == 1:
+                test = ast.BoolOp(op=ast.And(), values=guards + [last.test])
+                inner = last.body[0]
+            else:
+                test = guards[0] if len(guards) == 1 else ast.BoolOp(
+                    op=ast.And(), values=guards)
+                inner = last
+            new_last = ast.If(test=test, body=[inner], orelse=[])
+            ast.copy_location(new_last, last)
+            loop2 = ast.For(target=loop.target, iter=loop.iter,
+                            body=[s_ for s_ in loop.body[:-1]
+                                  if isinstance(s_, ast.Assign)]
+                            + [new_last], orelse=[], type_comment=None)
+            ast.copy_location(loop2, loop)
+            ast.fix_missing_locations(loop2)
+            loop = loop2
         if temps:
             loop = self._subst_temps(loop, temps)
             if loop is None:
